@@ -20,6 +20,10 @@ def run(ctx):
     ctx.rule("R7", "conservation (shared with C03.R1, C03.R2): every drained component is merged exactly once into the same component of the hot shard; a local batch adds "
                    "exactly its own count, sum and bucket deltas")
     ctx.run_rule("R7", lambda c: C06._as(c, "R7", lambda s_: hc.rule_C03(s_, f), keep=lambda k: ".R1|" in k or ".R2|" in k))
+    from . import C08
+    ctx.rule("R9", "every bucket of the snapshot is reported with the running total of the drained counts up to its bound (shared with C08.R5): one Bucket per upper bound, "
+                   "cumulative count updated before it is stored")
+    ctx.run_rule("R9", lambda c: C06._as(c, "R9", lambda s_: C08.rule_R5(s_, f)))
     from . import C12
     ctx.rule("R8", "what a local histogram flushes is one batch of its own observations (shared with C12.L5): flush clears all of count, sum and counts; a clone (start_timer clones) "
                    "starts with all three cleared; otherwise a snapshot shows bucket counts that no set of observations explains")
